@@ -21,10 +21,10 @@ ACTIONS = ["NDoEvery|DoEvery", "NDoAfter|DoAfter", "NDoAt|DoAt", "DoNull", "NCan
            "LoopStart", "LoopStop", "PassBegin", "NFireOne|FireOne", "CbEnd", "PassEnd"]
 AS_FOUND = [("clear_resets_id", "TokenUnique"), ("lazy_cancel", "NoFireAfterCancel"), ("delete_now", "NoDeleteRunning"),
             ("oneshot_keeps_token", "CancelTruth"), ("cleanup_no_disable", "NoFireAfterCancel"), ("cancel_leaks", "NoLeak"),
-            ("rearm_now", "NoSkip")]
+            ("rearm_now", "NoSkip"), ("at_wraps", "NoSkip")]
 HARNESS_ENV = {"ASAN_OPTIONS": vlib.SAN_ENV["ASAN_OPTIONS"].replace("detect_leaks=0", "detect_leaks=1")}
 MAXLINES = 60000
-BASES = [1000, 123456789, 2 ** 40]
+BASES = [2, 1000, 123456789, 2 ** 40]      # value of the monotonic clock when the execution starts
 
 
 # ---------------------------------------------------------------------------------------------------------------------
@@ -265,31 +265,31 @@ def run(ctx):
     # 2. spec -> code -------------------------------------------------------------------------------------------------
     def j_focus(c):
         behs = c.tlc_gen("TimerPool", "Gen_TimerPool.tla", "Gen_focus.cfg", timeout=900, workers=2)
-        scripts = dedupe([script_of(b, 3, BASES[k % 3]) for k, b in enumerate(behs)])
+        scripts = dedupe([script_of(b, 3, BASES[k % 4]) for k, b in enumerate(behs)])
         total = len(scripts)
         if quick:
-            scripts = random.Random(ctx.seed).sample(scripts, min(len(scripts), 3000))
+            scripts = random.Random(ctx.seed).sample(scripts, min(len(scripts), 2500))
         run_scripts(c, exe, scripts, "focus", "replay")
         return scripts, total
 
     def j_life(c):
-        behs = c.tlc_gen("TimerPool", "Gen_TimerPool.tla", "Gen_life.cfg", simulate=(2500 if quick else 40000, 40), timeout=600, workers=1,
-                         limit=1000 if quick else 40000)
-        scripts = dedupe([script_of(b, 2, 1000) for b in behs])
+        behs = c.tlc_gen("TimerPool", "Gen_TimerPool.tla", "Gen_life.cfg", simulate=(2500 if quick else 30000, 40), timeout=600, workers=1,
+                         limit=1000 if quick else 10000)
+        scripts = dedupe([script_of(b, 2, BASES[k % 3]) for k, b in enumerate(behs)])
         run_scripts(c, exe, scripts, "life", "replay")
         return scripts
 
     def j_deep(c):
-        behs = c.tlc_gen("TimerPool", "Gen_TimerPool.tla", "Gen_sim.cfg", simulate=(3000 if quick else 60000, 90), timeout=600, workers=1,
-                         limit=500 if quick else 30000)
-        scripts = dedupe([script_of(b, 4, BASES[k % 3]) for k, b in enumerate(behs)])
+        behs = c.tlc_gen("TimerPool", "Gen_TimerPool.tla", "Gen_sim.cfg", simulate=(3000 if quick else 40000, 90), timeout=600, workers=1,
+                         limit=500 if quick else 6000)
+        scripts = dedupe([script_of(b, 4, BASES[k % 4]) for k, b in enumerate(behs)])
         run_scripts(c, exe, scripts, "deep", "replay")
         return scripts
 
     # 3. code -> spec: seeded random scripts ---------------------------------------------------------------------------
     def j_random(c):
         rnd = random.Random(ctx.seed)
-        nrand = 700 if quick else 20000
+        nrand = 700 if quick else 8000
         rs = [rand_script(rnd, ("general", "general", "shared")[j % 3]) for j in range(nrand)]
         ok, tr = run_scripts(c, exe, rs, "random", "trace")
         return [json.loads(x) for x in vlib.read_lines(tr, 1, 16)] if tr else []
@@ -331,9 +331,9 @@ def run(ctx):
         "periods / delays are >= 1 ms for doEvery/doAfter (doEvery(0) makes the loop spin forever in handleExpiredTimers: not generated)",
         "the pool is used from the loop thread only; it is not destroyed from inside a callback of one of its own timers (the doAfter "
         "wrapper touches the pool after the user callback returns)",
-        "doAt(): the wall clock does not step backwards during the call; time points up to 3 ms in the past, virtual monotonic clock >= 1000 ms "
-        "(a time point further in the past than the monotonic clock's value wraps the unsigned deadline: such a timer never fires - noted in "
-        "design/E09.md, not generated)",
+        "doAt(): the wall clock does not step backwards during the call; time points from 3 ms in the past (also further back than the "
+        "virtual monotonic clock's value, which starts at 2 ms in a quarter of the executions) to 5 ms ahead",
+        "the monotonic clock never reads exactly 0 ms (deadline 0 is the sentinel CommonLoop::deleteTimer() uses)",
         "open in the reference, accepted both ways: the answer of cancel(own token) from inside the own doAfter callback (the code says true)",
     ]
     ctx.uncovered = ["real monotonic clock / real sleeping (everything is decided under the virtual clock)", "foreign-thread calls",
